@@ -49,30 +49,30 @@ theorem newDT_np_all :
     simp only [newDT, hn, if_false]
     exact bind_no_panic _ _ ih (fun _ => rfl)
   case case38 =>
-    intro path ename kf vf enl emd sorted nl md ihk ihv
+    intro path ename kf vf emd sorted nl md ihk ihv
     simp only [newDT]
     exact bind_no_panic _ _ ihk (fun _ => bind_no_panic _ _ ihv (fun _ => rfl))
-  case case42 =>
+  case case43 =>
     intro path fs nl md ih
     simp only [newDT]
     exact bind_no_panic _ _ ih (fun _ => mkStruct_np _ _ _)
-  case case43 =>
+  case case44 =>
     intro path k v nl md hint ihk ihv
     simp only [newDT, hint, if_true]
     exact bind_no_panic _ _ ihk (fun _ => bind_no_panic _ _ ihv (fun _ => rfl))
-  case case45 =>
-    intro path fs mode nl md ih
+  case case46 =>
+    intro path fs nl md ih
     simp only [newDT]
     exact bind_no_panic _ _ ih (fun _ => rfl)
-  case case48 =>
+  case case50 =>
     intro path name dt nl md ih
     simp only [newB]
     exact ih
-  case case50 =>
+  case case52 =>
     intro path f rest ihf ihr
     simp only [newFields]
     exact bind_no_panic _ _ ihf (fun _ => bind_no_panic _ _ ihr (fun _ => rfl))
-  case case53 =>
+  case case55 =>
     intro path tid f rest idx hne ihf ihr
     simp only [newUnionFields, hne]
     exact bind_no_panic _ _ ihf (fun _ => bind_no_panic _ _ ihr (fun _ => rfl))
